@@ -134,6 +134,7 @@ def classify(ctx, vfiles, pfiles, vrej, prej, sessions):
         fp = {'kind': 'call', 'op': ev['op'], 'clause': clause, 'wrapper': bool(header['opts'].get('wrapper')),
               'mode': ev.get('mode', 'num')}
         job = sessions.get(header['sid'], {})
+        fp.update(job.get('tags', {}))
         ctx.report(f"session {header['sid']} call {eid} {ev['name']} on keys {[a['keys'] for a in ev['args']]} "
                    f"(wrapper={fp['wrapper']}, mode={fp['mode']}{', source ' + ev['source'] if 'source' in ev else ''}): {clause}",
                    fp, {'session': job, 'event': ev, 'spec': 'TraceOps.tla'})
@@ -145,6 +146,7 @@ def classify(ctx, vfiles, pfiles, vrej, prej, sessions):
             continue
         sid = eid.split('#')[0]
         fp = {'kind': 'proto', 'clause': clause}
+        fp.update(sessions.get(sid, {}).get('tags', {}))
         ctx.report(f'session {sid} event {eid}: {clause}', fp, {'session': sessions.get(sid, {}), 'event_id': eid, 'trace': f, 'spec': 'TraceKingdon.tla'})
     ctx.extra['model_drift_events'] = ctx.extra.get('model_drift_events', 0) + drift
 
